@@ -200,23 +200,13 @@ impl<T: BitRead> PackedRead for T {
         lower_bound: Option<u64>,
         upper_bound: Option<u64>,
     ) -> Result<u64, Error> {
-        let lower_bound_unwrapped = const_unwrap_or!(lower_bound, 0);
         let upper_bound_unwrapped = const_unwrap_or!(upper_bound, i64::MAX as u64);
 
-        if (const_is_some!(lower_bound) || const_is_some!(upper_bound))
-            && upper_bound_unwrapped >= LENGTH_64K
-        {
-            // 11.9.4.2
-            if lower_bound == upper_bound {
-                Ok(lower_bound_unwrapped)
-            } else {
-                Ok(lower_bound_unwrapped
-                    + self.read_non_negative_binary_integer(lower_bound, upper_bound)?)
-            }
-        } else if const_is_some!(upper_bound) && upper_bound_unwrapped <= LENGTH_64K {
+        if const_is_some!(upper_bound) && upper_bound_unwrapped < LENGTH_64K {
             // 11.9.4.1 -> 11.9.3.4 -> 11.6.1
             self.read_non_negative_binary_integer(lower_bound, upper_bound)
         } else {
+            // 11.9.4.2: unset or 64K and above, the bounds do not influence the encoding
             // 11.9.4.1 -> 11.9.3.5
             if !self.read_bit()? {
                 // 11.9.3.6: less than or equal to 127
@@ -556,32 +546,12 @@ impl<T: BitWrite> PackedWrite for T {
             .into());
         }
 
-        if (const_is_some!(lower_bound) || const_is_some!(upper_bound))
-            && upper_bound_unwrapped >= LENGTH_64K
-        {
-            // 11.9.4.2
-            if lower_bound == upper_bound {
-                Ok(None)
-            } else if value < lower_bound_unwrapped {
-                Err(ErrorKind::ValueNotInRange(
-                    value as i64,
-                    lower_bound_unwrapped as i64,
-                    upper_bound_unwrapped as i64,
-                )
-                .into())
-            } else {
-                self.write_non_negative_binary_integer(
-                    lower_bound,
-                    upper_bound,
-                    value - lower_bound_unwrapped,
-                )?;
-                Ok(None)
-            }
-        } else if const_is_some!(upper_bound) && upper_bound_unwrapped <= LENGTH_64K {
+        if const_is_some!(upper_bound) && upper_bound_unwrapped < LENGTH_64K {
             // 11.9.4.1 -> 11.9.3.4 -> 11.6.1
             self.write_non_negative_binary_integer(lower_bound, upper_bound, value)?;
             Ok(None)
         } else {
+            // 11.9.4.2: unset or 64K and above, the bounds do not influence the encoding
             // 11.9.4.1 -> 11.9.3.5
             if value <= LENGTH_127 {
                 // 11.9.3.6: less than or equal to 127
